@@ -91,6 +91,10 @@ def spectral_leaves():
     tu["k"] = "Triangular"
     tu["p"]["lower"] = False
     L["T_up"] = tu
+    tc = eig_leaf([[1, 1j, 0], [0, 1, 1], [0, 0, 1]], [1j, 2, -3], "c128", "triuc")   # complex upper triangular
+    tc["k"] = "Triangular"
+    tc["p"]["lower"] = False
+    L["T_upc"] = tc
     L["G_dgneg"] = catalog.diag([2, -5, 1], "f64")
     L["G_dg14"] = catalog.diag([4, 1], "f64")
     L["G_dg419"] = catalog.diag([4, 1, 9], "f64")
